@@ -50,7 +50,7 @@ def ph_events(ctx, o, seq, phs, need, hist=None):
         grid = abs(ph * 10 - k10) < 1e-12 and float(k10) / 10.0 == float(ph)
         replies = {}
         for name, g in GETTERS.items():
-            out = common.call(getattr(o, g), ph)
+            out = common.call(getattr(o, g), pH=ph) if (ph * 10) % 3 == 0 else common.call(getattr(o, g), ph)
             ctx.evaluations += 1
             e = {"q": "ph", "name": name, "ph": common.fx(ph), "exc": out[0] != "ok", "grid": bool(grid), "r": common.fx(0),
                  "j": {r: int(k10 - pk) for r, pk in PKA10.items()} if grid else {r: 0 for r in PKA10},
@@ -113,7 +113,7 @@ def run(ctx):
     ctx.exhaustive = True
     need = set()
     trs = []
-    grid = [k / 10.0 for k in range(0, 141, ctx.pick(5, 1))] + [0.0, 14.0, 7.4, 0.1, 13.9]
+    grid = [k / 10.0 for k in range(0, 141, ctx.pick(5, 1))] + [0.0, 14.0, 7.4, 0.1, 13.9, -0.0, 0, 14, 7]
     outside = [-0.1, -1e-9, 14.000001, 14.1, 15, -3]
     extremes = list(common.AA) + ["KKKKKKKK", "RRRRRR", "DDDDEEEE", "HHHH", "CYCY", "GGSGQN", "R", "K", "D", "KRHDECY", "PPPPKE", "RRRRH", "GRGRGRGSPRQ", "RRK"]
     for s in extremes:
